@@ -401,6 +401,9 @@ func propertyAssumptions(p string) []string {
 		"slice lengths and capacities are below 2^48; reference validity (no dangling pointers) as guaranteed by Go's memory safety",
 		"package-level state is immutable after init (this is what C20 checks) and its values are those observed by the init probe",
 		"cryptographic primitives are uninterpreted functions; no hardness assumption is modelled",
+		"'modifies anything' contracts: the callee may change exactly the cells its body (transitively) can store to, computed per memory array and per struct field from the SSA; this relies on Go's type safety (no unsafe code in scope except the wipe helpers, which have explicit modifies clauses)",
+		"assignment targets are evaluated as the gc compiler does (pointer operands of the left-hand side after the calls on the right-hand side); go/ssa's order differs and the language leaves it open",
+		"the representation invariants of a Conversation (convOK, akeInv, empty injection queue, no completed fragment stream) are assumed at entry of the public functions under contract",
 	}
 	return append(base, propAssumptions[p]...)
 }
